@@ -346,7 +346,24 @@ class Executor(StmtMixin, LoopMixin, DriverMixin):
         out = []
         for s, (a, b) in self.ev_list([node.left, node.right], st, sink):
             if isinstance(node.op, ast.Mod) and a.t == ty.Str:
+                fmt = node.left.value if isinstance(node.left, ast.Constant) and isinstance(node.left.value, str) else None
+                if fmt is not None and fmt.count("%") == 1 and fmt.count("%s") == 1 and b.t == ty.Str and b.e is not None and z3.is_string(a.e):
+                    # a literal format with a single %s applied to a str: prefix + argument + suffix
+                    pre, suf = fmt.split("%s")
+                    out.append((s, SV(ty.Str, z3.Concat(z3.StringVal(pre), b.e, z3.StringVal(suf)) if pre and suf else
+                                   (z3.Concat(z3.StringVal(pre), b.e) if pre else (z3.Concat(b.e, z3.StringVal(suf)) if suf else b.e)))))
+                    continue
                 out.append((s, ty.fresh(ty.Str, "fmt")))  # % formatting: opaque string
+                continue
+            if isinstance(node.op, ast.Mult) and a.t == ty.Str and b.t == ty.Int and isinstance(node.left, ast.Constant) \
+                    and isinstance(node.left.value, str) and len(node.left.value) == 1 and z3.is_string(a.e):
+                # "c" * n : n copies of the character (empty when n <= 0)
+                r = ty.fresh(ty.Str, "rep")
+                k = z3.Int("k!rep%d" % id(node))
+                s = s.copy()
+                s.assume(z3.Length(r.e) == z3.If(b.e > 0, b.e, 0))
+                s.assume(z3.ForAll([k], z3.Implies(z3.And(0 <= k, k < z3.Length(r.e)), z3.SubString(r.e, k, 1) == a.e)))
+                out.append((s, r))
                 continue
             # None as an operand of an arithmetic operator raises TypeError
             variants = [(s, a, b)]
